@@ -57,7 +57,12 @@ theorem sign_writes_only (m : Sign1Msg) (ext : Option Bytes) (s : Signer) :
       | ok p' =>
         simp only []
         cases Sign1.toBeSigned { m with h := { m.h with p := p' } } ext with
-        | ok tbs => cases hs : s.sign tbs <;> simp [hs]
+        | ok tbs =>
+          cases hs : s.sign tbs with
+          | ok sig => simp only [hs]; split <;> simp
+          | err e' => simp [hs]
+          | panic => simp [hs]
+          | unmodelled => simp [hs]
         | err e' => simp
         | panic => simp
         | unmodelled => simp
